@@ -522,7 +522,7 @@ def make_suggest(shape):
             if mode == "reconfig_pair":
                 # the same object after the front end changed options (update_engine keeps the method object when the layout stays): the second
                 # configuration's English / ANSI / smart-quote switches are independent symbols; against a pristine object under that configuration
-                cfg2, opts2 = mk_config(prog, st, dict(fixed, **shape.get("fixed2", {})), tag="opt2_")
+                cfg2, opts2 = mk_config(prog, st, dict({"phonetic_suggestion": True}, **shape.get("fixed2", {})), tag="opt2_")
                 ctx["opts2"] = opts2
                 res["second"] = run_suggest(it, st, ctx, ps, term, selections, cfg2)
                 ps3 = it.call_function(prog.find_fn("PhoneticSuggestion", "new"), [ps_field(prog, ps, "user_autocorrect")])
